@@ -66,10 +66,11 @@ class _Fails(object):
         self.kept = {}
 
     def add(self, kind, payload):
+        """payload: a dict or a zero-argument callable building it (only built for the cases that are kept)"""
         self.count[kind] = self.count.get(kind, 0) + 1
         lst = self.kept.setdefault(kind, [])
         if len(lst) < MAX_FAIL_PER_KIND:
-            lst.append(payload)
+            lst.append(payload() if callable(payload) else payload)
 
     def merge(self, other):
         for k, n in other.count.items():
@@ -299,7 +300,7 @@ def _w_programs(job):
             except Exception:
                 bad = [("valueset-exception", "no exception", traceback.format_exc(limit=4))]
             for kind, exp, obs in bad:
-                fails.add(kind, {"what": "%s: ValueSet does not denote the union of its listed values and inclusive ranges" % kind,
+                fails.add(kind, lambda: {"what": "%s: ValueSet does not denote the union of its listed values and inclusive ranges" % kind,
                                  "inputs": {"program": _program_text(seq, mode), "universe": uname},
                                  "expected": exp, "observed": obs})
     return n_eval, states, fails
@@ -344,30 +345,30 @@ def _w_pairs(job):
                 d1 = A.is_disjoint(B)
                 d2 = B.is_disjoint(A)
                 if d1 is not exp or d2 is not exp:
-                    fails.add("valueset-is_disjoint", {"what": "is_disjoint disagrees with the intersection of the two sets being empty",
+                    fails.add("valueset-is_disjoint", lambda: {"what": "is_disjoint disagrees with the intersection of the two sets being empty",
                                                        "inputs": inputs, "expected": exp, "observed": {"A.is_disjoint(B)": d1, "B.is_disjoint(A)": d2}})
                 U = A + B
                 mU = mA | mB
                 got = [x in U for x in probes]
                 if got != [x in mU for x in probes] or isinstance(U, ct.AnyValue):
-                    fails.add("valueset-union", {"what": "A + B does not contain exactly the union", "inputs": inputs,
+                    fails.add("valueset-union", lambda: {"what": "A + B does not contain exactly the union", "inputs": inputs,
                                                  "expected": sorted(mU, key=repr), "observed": dict(zip(map(repr, probes), got))})
                 e = A == B
                 ne = A != B
                 if e is ne or (e and mA != mB):
-                    fails.add("valueset-eq", {"what": "A == B although the sets differ (or == and != agree)", "inputs": inputs,
+                    fails.add("valueset-eq", lambda: {"what": "A == B although the sets differ (or == and != agree)", "inputs": inputs,
                                               "expected": mA == mB, "observed": {"==": e, "!=": ne}})
                 if e and hash(A) != hash(B):
-                    fails.add("valueset-hash", {"what": "equal ValueSets with different hashes", "inputs": inputs, "expected": True, "observed": False})
+                    fails.add("valueset-hash", lambda: {"what": "equal ValueSets with different hashes", "inputs": inputs, "expected": True, "observed": False})
                 if mA == mB and not e:
                     eq_incomplete += 1
             except Exception:
-                fails.add("valueset-exception", {"what": "unexpected exception from ValueSet pair operations", "inputs": inputs,
+                fails.add("valueset-exception", lambda: {"what": "unexpected exception from ValueSet pair operations", "inputs": inputs,
                                                  "expected": "no exception", "observed": traceback.format_exc(limit=4)})
     # the operands must not have been changed by is_disjoint / + / ==
     for (o, m, t), s in zip(left + right, snap):
         if ([x in o for x in probes], sorted(map(repr, o))) != s:
-            fails.add("valueset-operand-mutated", {"what": "is_disjoint/+/== changed an operand", "inputs": {"A": t, "universe": uname},
+            fails.add("valueset-operand-mutated", lambda: {"what": "is_disjoint/+/== changed an operand", "inputs": {"A": t, "universe": uname},
                                                    "expected": s, "observed": ([x in o for x in probes], sorted(map(repr, o)))})
     return n_eval, n_overlap, eq_incomplete, fails
 
@@ -401,10 +402,10 @@ def _check_anyvalue(ct, uname, max_atoms):
                 "A unchanged": True,
             }
             if obs != exp:
-                fails.add("anyvalue-combine", {"what": "AnyValue does not behave as the set of all values when combined with a ValueSet",
+                fails.add("anyvalue-combine", lambda: {"what": "AnyValue does not behave as the set of all values when combined with a ValueSet",
                                                "inputs": inputs, "expected": exp, "observed": obs})
         except Exception:
-            fails.add("anyvalue-exception", {"what": "unexpected exception combining AnyValue", "inputs": inputs,
+            fails.add("anyvalue-exception", lambda: {"what": "unexpected exception combining AnyValue", "inputs": inputs,
                                              "expected": "no exception", "observed": traceback.format_exc(limit=4)})
     # AnyValue on its own
     n += 1
@@ -423,7 +424,7 @@ def _check_anyvalue(ct, uname, max_atoms):
     }
     exp = {"contains": True, "Any+Any": True, "Any.is_disjoint(Any)": False, "Any==Any": True, "Any!=Any": False, "hash": True, "is ValueSet": True}
     if obs != exp:
-        fails.add("anyvalue-alone", {"what": "AnyValue alone does not behave as the set of all values", "inputs": {"program": "a = AnyValue(); a.add_value(1); a.add_range(2, 3); b = AnyValue()"},
+        fails.add("anyvalue-alone", lambda: {"what": "AnyValue alone does not behave as the set of all values", "inputs": {"program": "a = AnyValue(); a.add_value(1); a.add_range(2, 3); b = AnyValue()"},
                                      "expected": exp, "observed": obs})
     return n, fails
 
@@ -617,19 +618,37 @@ def _install_table(vmods, table):
     level_constraints.LEVEL_CONSTRAINTS = table
 
 
+class _SpyList(list):
+    """a table that notes being looked at"""
+
+    seen = 0
+
+    def __iter__(self):
+        self.seen += 1
+        return list.__iter__(self)
+
+    def __getitem__(self, i):
+        self.seen += 1
+        return list.__getitem__(self, i)
+
+    def __len__(self):
+        self.seen += 1
+        return list.__len__(self)
+
+
 def _canary_patch(ct, vmods):
-    """The enumerated table must really be the one assert_level_constraint consults."""
+    """The enumerated table must really be the one assert_level_constraint consults (whatever it then answers)."""
     assertions, level_constraints, VNA, State = vmods
     saved = (getattr(assertions, "LEVEL_CONSTRAINTS", None), level_constraints.LEVEL_CONSTRAINTS)
+    spy = _SpyList([{"c17_canary": ct.ValueSet(41)}])
     try:
-        _install_table(vmods, [{"c17_canary": ct.ValueSet(41)}])
-        st = State()
-        assertions.assert_level_constraint(st, "c17_canary", 41)
+        _install_table(vmods, spy)
         try:
-            assertions.assert_level_constraint(State(), "c17_canary", 40)
-        except VNA:
-            return
-        raise RuntimeError("C17 checker: substituting the constraint table consulted by assert_level_constraint had no effect")
+            assertions.assert_level_constraint(State(), "c17_canary", 41)
+        except Exception:
+            pass  # the behaviour itself is judged by the enumerated checks, not here
+        if not spy.seen:
+            raise RuntimeError("C17 checker: substituting the constraint table consulted by assert_level_constraint had no effect")
     finally:
         assertions.LEVEL_CONSTRAINTS, level_constraints.LEVEL_CONSTRAINTS = saved
 
@@ -663,11 +682,11 @@ def _check_table(ct, vmods, real, model, ttext, keys, u, fails, counters, do_val
                     i = hit[0]
                 got_idx.append(i)
         if not ok or sorted(got_idx) != exp_idx:
-            fails.add("table-filter", {"what": "filter_constraint_table does not return exactly the columns containing the given values",
+            fails.add("table-filter", lambda: {"what": "filter_constraint_table does not return exactly the columns containing the given values",
                                        "inputs": dict(inputs0, values=dict(vals)), "expected": exp_idx, "observed": repr(flt)})
         ia = ct.is_allowed_combination(real, dict(vals))
         if ia is not bool(exp_idx):
-            fails.add("table-is_allowed", {"what": "is_allowed_combination disagrees with 'some column contains every given value'",
+            fails.add("table-is_allowed", lambda: {"what": "is_allowed_combination disagrees with 'some column contains every given value'",
                                            "inputs": dict(inputs0, values=dict(vals)), "expected": bool(exp_idx), "observed": ia})
         cache[key] = ia
         return ia
@@ -688,7 +707,7 @@ def _check_table(ct, vmods, real, model, ttext, keys, u, fails, counters, do_val
             counters["avf"] += 1
             S = ct.allowed_values_for(real, k, dict(vals))
             if not isinstance(S, ct.ValueSet):
-                fails.add("table-allowed_values_for-type", {"what": "allowed_values_for did not return a ValueSet", "inputs": dict(inputs0, key=k, values=vals),
+                fails.add("table-allowed_values_for-type", lambda: {"what": "allowed_values_for did not return a ValueSet", "inputs": dict(inputs0, key=k, values=vals),
                                                             "expected": "ValueSet", "observed": repr(S)})
                 continue
             mv = _m_values_for(model, k, vals) if (has_catch_all or has_any) else None
@@ -702,7 +721,7 @@ def _check_table(ct, vmods, real, model, ttext, keys, u, fails, counters, do_val
                 else:
                     exp = _m_allowed(model, ext)  # the property's equivalence
                 if lhs is not exp or (not has_catch_all and lhs is not rhs_real):
-                    fails.add("table-allowed_values_for", {
+                    fails.add("table-allowed_values_for", lambda: {
                         "what": "v in allowed_values_for(T, k, vals) differs from is_allowed_combination(T, vals + {k: v})" if not has_catch_all
                         else "allowed_values_for differs from the union of the values listed for the key by the columns containing vals",
                         "inputs": dict(inputs0, key=k, values=vals, v=v), "expected": exp,
@@ -715,7 +734,7 @@ def _check_table(ct, vmods, real, model, ttext, keys, u, fails, counters, do_val
                 sub = ct.ValueSet(12345)
                 S2 = ct.allowed_values_for(real, k, dict(vals), sub)
                 if (S2 is sub) is not (mv is ANY) or isinstance(S, ct.AnyValue) is not (mv is ANY):
-                    fails.add("table-any_value", {"what": "allowed_values_for(any_value=...) substitutes exactly when AnyValue is allowed",
+                    fails.add("table-any_value", lambda: {"what": "allowed_values_for(any_value=...) substitutes exactly when AnyValue is allowed",
                                                   "inputs": dict(inputs0, key=k, values=vals), "expected": mv is ANY,
                                                   "observed": {"substituted": S2 is sub, "default result is AnyValue": isinstance(S, ct.AnyValue)}})
     allowed_real({})
@@ -744,12 +763,12 @@ def _check_table(ct, vmods, real, model, ttext, keys, u, fails, counters, do_val
                 after = list(st.get("_level_constrained_values", {}).items())
                 want_after = list(ext.items()) if exp else list(prefix)
                 if acc is not exp or after != want_after:
-                    fails.add("validator-sequence", {
+                    fails.add("validator-sequence", lambda: {
                         "what": "one-at-a-time check (assert_level_constraint) does not accept exactly the sequences whose every prefix is an allowed combination",
                         "inputs": dict(inputs0, sequence=list(ext.items())), "expected": {"accepted": exp, "recorded": want_after},
                         "observed": {"accepted": acc, "recorded": after}})
                 elif exc is not None and (getattr(exc, "key", k) != k or getattr(exc, "value", v) != v):
-                    fails.add("validator-exception-fields", {"what": "ValueNotAllowedInLevel names another key/value than the rejected one",
+                    fails.add("validator-exception-fields", lambda: {"what": "ValueNotAllowedInLevel names another key/value than the rejected one",
                                                              "inputs": dict(inputs0, sequence=list(ext.items())), "expected": [k, v],
                                                              "observed": [getattr(exc, "key", None), getattr(exc, "value", None)]})
                 if acc and exp and depth + 1 < r:
@@ -797,7 +816,7 @@ def _w_tables(job):
             try:
                 _check_table(ct, vmods, real, model, ttext, keys, u, fails, counters)
             except Exception:
-                fails.add("table-exception", {"what": "unexpected exception from the constraint-table functions", "inputs": {"table": ttext},
+                fails.add("table-exception", lambda: {"what": "unexpected exception from the constraint-table functions", "inputs": {"table": ttext},
                                               "expected": "no exception", "observed": traceback.format_exc(limit=6)})
     finally:
         vmods[0].LEVEL_CONSTRAINTS, vmods[1].LEVEL_CONSTRAINTS = saved
@@ -805,7 +824,7 @@ def _w_tables(job):
     for s, variants, texts in cells:
         for v, t in zip(variants, texts):
             if [x in v for x in range(-1, u + 1)] != [x in s for x in range(-1, u + 1)]:
-                fails.add("table-cell-mutated", {"what": "a query modified a ValueSet of the table", "inputs": {"cell": t}, "expected": sorted(s),
+                fails.add("table-cell-mutated", lambda: {"what": "a query modified a ValueSet of the table", "inputs": {"cell": t}, "expected": sorted(s),
                                                  "observed": [x for x in range(-1, u + 1) if x in v]})
     return counters, fails
 
@@ -1008,12 +1027,12 @@ def _compare_csv(ct, real, model, fails, inputs, kindprefix):
     """cell by cell comparison of the real table with the independently read one; returns cells compared"""
     n = 0
     if not isinstance(real, list) or len(real) != len(model):
-        fails.add(kindprefix + "-shape", {"what": "number of columns read from the CSV differs", "inputs": inputs, "expected": len(model),
+        fails.add(kindprefix + "-shape", lambda: {"what": "number of columns read from the CSV differs", "inputs": inputs, "expected": len(model),
                                           "observed": len(real) if isinstance(real, list) else repr(real)})
         return n
     for ci, (rc, mc) in enumerate(zip(real, model)):
         if sorted(rc.keys()) != sorted(mc.keys()):
-            fails.add(kindprefix + "-keys", {"what": "keys of a column read from the CSV differ", "inputs": dict(inputs, column=ci),
+            fails.add(kindprefix + "-keys", lambda: {"what": "keys of a column read from the CSV differ", "inputs": dict(inputs, column=ci),
                                              "expected": sorted(mc.keys()), "observed": sorted(rc.keys())})
             continue
         for k, cm in mc.items():
@@ -1040,7 +1059,7 @@ def _compare_csv(ct, real, model, fails, inputs, kindprefix):
             elif ok and is_any:
                 ok = all(x in rv for x in (0, 1, 10 ** 9, True, "x"))
             if not ok:
-                fails.add(kindprefix + "-cell", {"what": "cell read from the CSV does not contain exactly the values, ranges, 'any' or ditto content written in the file",
+                fails.add(kindprefix + "-cell", lambda: {"what": "cell read from the CSV does not contain exactly the values, ranges, 'any' or ditto content written in the file",
                                                  "inputs": dict(inputs, column=ci, key=k), "expected": repr(cm), "observed": detail or repr(rv)})
     return n
 
@@ -1125,7 +1144,7 @@ def _w_csv(job):
             real = ct.read_constraints_from_csv(path)
             n_cells += _compare_csv(ct, real, model, fails, inputs, "csv")
         except Exception:
-            fails.add("csv-exception", {"what": "read_constraints_from_csv raised on a table in the documented format", "inputs": inputs,
+            fails.add("csv-exception", lambda: {"what": "read_constraints_from_csv raised on a table in the documented format", "inputs": inputs,
                                         "expected": "no exception", "observed": traceback.format_exc(limit=6)})
         os.unlink(path)
     return n_files, n_cells, feats_seen, fails
@@ -1220,7 +1239,7 @@ def _part_csv(rep, tier, seed):
             lhs = v in S
             rhs = ct.is_allowed_combination(table, ext)
             if lhs is not exp or rhs is not exp:
-                total.add("leveltable-equivalence", {"what": "on the live level table: v in allowed_values_for(T, k, vals) / is_allowed_combination(T, vals + {k: v}) differ from the independent parse",
+                total.add("leveltable-equivalence", lambda: {"what": "on the live level table: v in allowed_values_for(T, k, vals) / is_allowed_combination(T, vals + {k: v}) differ from the independent parse",
                                                     "inputs": {"key": k, "v": v, "values": dict(vals)}, "expected": exp,
                                                     "observed": {"v in allowed_values_for": lhs, "is_allowed_combination": rhs}})
             if not exp:
